@@ -124,6 +124,9 @@ def _models(case):
         us = [(i, j) for i in range(d) for j in range(d)]
         for (a, b) in itertools.permutations(us, 2):
             out.append((f"E{a[0]}{a[1]}@0.3 + E{b[0]}{b[1]}@1.7", mk(eff_noise_opers=[unit(*a), unit(*b)], eff_noise_rates=[0.3, 1.7])))
+            # one of the two channels switched off (rate exactly 0): the other keeps its own rate
+            out.append((f"E{a[0]}{a[1]}@0 + E{b[0]}{b[1]}@1.7", mk(eff_noise_opers=[unit(*a), unit(*b)], eff_noise_rates=[0.0, 1.7])))
+            out.append((f"E{a[0]}{a[1]}@0.3 + E{b[0]}{b[1]}@0", mk(eff_noise_opers=[unit(*a), unit(*b)], eff_noise_rates=[0.3, 0.0])))
     elif fam == "pauli":
         X = unit(0, 1) + unit(1, 0)
         Y = -1j * unit(0, 1) + 1j * unit(1, 0)
